@@ -291,3 +291,34 @@ Definition superrun_full (prun : Z) (write : bool) (low levels : list level) (sr
 Definition combining_full (low levels : list level) (srcs : list (Z * list stored)) : res (list achunk) :=
   do subs <- mapM (fun rs => do st <- subrun_make (fst rs) low (snd rs); subrun_make (fst rs) levels st) srcs;
   combining_get subs.
+
+(* ---------------------------------------------------------------------------------------------
+   histories of one superrun name on one storage directory: (re)definitions and gets.  The data key of
+   the superrun is the canonical serialisation of the CURRENT definition (the hash is injective on these,
+   C14_redefinition_changes_key); get_array / make with write_superruns on stores under it unless it is
+   stored already.
+   --------------------------------------------------------------------------------------------- *)
+Fixpoint list_eqb (a b : list Z) : bool :=
+  match a, b with
+  | [], [] => true
+  | x :: a', y :: b' => (x =? y) && list_eqb a' b'
+  | _, _ => false
+  end.
+
+Inductive hop := HDefine (data : list Z) | HGet (write : bool).
+Record hstate := mkh { h_spec : list Z; h_made : list (list Z) }.
+
+Definition h_key (s : hstate) : list Z := fst (canon_spec (h_spec s) false).
+Definition h_is_stored (s : hstate) : bool := existsb (list_eqb (h_key s)) (h_made s).
+Definition h_step (s : hstate) (op : hop) : hstate :=
+  match op with
+  | HDefine d => mkh (dedup d) (h_made s)
+  | HGet w => if w && negb (h_is_stored s) then mkh (h_spec s) (h_key s :: h_made s) else s
+  end.
+
+(* is_stored after every step *)
+Fixpoint h_trace (s : hstate) (ops : list hop) : list bool :=
+  match ops with
+  | [] => []
+  | op :: more => let s' := h_step s op in h_is_stored s' :: h_trace s' more
+  end.
